@@ -46,6 +46,6 @@ def run(tier, seed):
 
 def replay(path):
     r = json.load(open(path))
-    R = pipeline.replay_and_validate("C16/replay", r["init"], [(r["hist"], 1)], shards=1)
+    R = pipeline.replay_and_validate("C16/replay", r["init"], [(r["hist"], 1, r.get("tid", 1))], shards=1, seed=r.get("seed", 0))
     print(json.dumps(R["sample"]["steps"][0]["res"], indent=1)[:3000])
     return {"fails": R["fails"], "init": r["init"], "evidence": None}
